@@ -62,13 +62,14 @@ type DviEv struct {
 	Flag  bool     `json:"flag"`  // closed / isOpen
 	Delta int64    `json:"delta"` // delta in hundredths (offset)
 
-	Out     string  `json:"out"`
-	Ok      bool    `json:"ok"`
-	R64     BPaths  `json:"r64"`
-	RD9     BPaths  `json:"rd9"`
-	T64     []int   `json:"t64"` // tree parents (64-bit) when the api returns a tree
-	TD      []int   `json:"td"`
-	Nontriv bool    `json:"nontriv"`
+	Out      string `json:"out"`
+	Ok       bool   `json:"ok"`
+	R64      BPaths `json:"r64"`
+	RD9      BPaths `json:"rd9"`
+	T64      []int  `json:"t64"` // tree parents (64-bit) when the api returns a tree
+	TD       []int  `json:"td"`
+	ArgsSame bool   `json:"argsSame"` // neither the PathsD operands nor the integer operands of the reference run were modified
+	Nontriv  bool   `json:"nontriv"`
 }
 
 var pow10 = func() []*big.Int {
@@ -109,7 +110,7 @@ func decToD(p decPath, d int) clipper.PathD {
 	for i, q := range p {
 		out[i] = clipper.PointD{X: float64(q[0]) / den, Y: float64(q[1]) / den}
 	}
-	return out
+	return regPathD(out)
 }
 
 func decsToD(s []decPath, d int) clipper.PathsD {
@@ -232,6 +233,12 @@ func execDvi(e *DviEv, in dviIn) {
 		// reference run below uses exactly these integers
 		a64, b64 = clipper.ScalePathsDToPaths64(aD, scale), clipper.ScalePathsDToPaths64(bD, scale)
 		e.QA, e.QB = paths64B(a64), paths64B(b64)
+		for _, q := range a64 {
+			regPath64(q)
+		}
+		for _, q := range b64 {
+			regPath64(q)
+		}
 	}
 	ct, fr := clipper.ClipType(e.Ct), clipper.FillRule(e.Fr)
 	delta := float64(e.Delta) / 100
@@ -301,6 +308,7 @@ func execDvi(e *DviEv, in dviIn) {
 			r64 = clipper.Paths64{clipper.TrimCollinear64(first64(a64), e.Flag)}
 		}
 	})
+	e.ArgsSame = argsUnchanged()
 	if e.Out == "ok" {
 		e.R64 = paths64B(r64)
 		e.RD9 = pathsD9(rD, p)
